@@ -1,7 +1,11 @@
 (* RunC08.v -- runner for C08.  One case = the abstract view of a file (what every task reads) plus its bytes:
-     (case xFILE (meta xVER xMARK (d trailer...) MAXID ENC [(xc (NUM CONTAINER) ...)]) (entries E ...) [(model pinned)])
+     (case xFILE (meta xVER xMARK (d trailer...) MAXID ENC [(xc (NUM CONTAINER) ...)]) (entries E ...) [(model pinned)] [CRYPT])
      E ::= (KEY OFF fail) | (KEY OFF (obj (ID GEN) OBJ)) | (KEY OFF (stm (ID GEN) (d ...) xCONTENT START MEMBERS))
      START ::= none | N          MEMBERS ::= none | (m ((ID GEN) OBJ) ...)
+     CRYPT ::= (crypt OPENS (dec ((ID GEN) OBJ OBJ|err) ...) (osm (xCONTENT MEMBERS) ...))
+       for an encrypted file: OPENS = the empty password authenticates; dec = what decrypt_object makes of the object found
+       under that id (an object that is not listed is left as it is, `err` = Err); osm = what ObjectStream::new finds in a
+       decrypted stream with that content (not listed = Err).  A load that fails prints (err) for its document.
    Result: (res (b I ...) (z I ...) (docs DOC ...)) : the document of the sequential load is docs[0]; [b] gives, for every
    permutation of the blocks (all of them up to 6 blocks, lexicographic in the positions of the key order; identity and
    reversal beyond), the index in [docs] of the document that order produces (zero-length ids in key order); [z] the same for
@@ -58,6 +62,71 @@ Definition file_of_sx (x : sx) : option (file * bool) :=
   | _ => None
   end.
 
+(* ---- the data of the decryption phase ---- *)
+Definition find_tag (tag : String.string) (l : list sx) : option (list sx) :=
+  match find (fun e => match e with SL (t :: _) => is_id t tag | _ => false end) l with
+  | Some (SL (_ :: r)) => Some r
+  | _ => None
+  end.
+
+Arguments find_tag _%string_scope _.
+
+Definition members_of_sx (ms : sx) : option (option (list member)) :=
+  match ms with
+  | SA _ => if is_id ms "none" then Some None else None
+  | SL (_ :: l) => option_map Some (omap member_of_sx l)
+  | _ => None
+  end.
+
+Definition dec_entry_of_sx (x : sx) : option (oid * bytes * option obj) :=
+  match x with
+  | SL [id; e; p] =>
+    do id <- oid_of_sx id; do e <- obj_of_sx e;
+    do p <- (if is_id p "err" then Some None else option_map Some (obj_of_sx p));
+    Some (id, sx_print (obj_to_sx e), p)
+  | _ => None
+  end.
+
+Definition osm_entry_of_sx (x : sx) : option (bytes * option (list member)) :=
+  match x with
+  | SL [c; ms] => do c <- as_bytes c; do ms <- members_of_sx ms; Some (c, ms)
+  | _ => None
+  end.
+
+Fixpoint dec_lookup (t : list (oid * bytes * option obj)) (id : oid) (key : bytes) : option (option obj) :=
+  match t with
+  | [] => None
+  | (i, k, p) :: t' => if oid_eqb i id && bytes_eqb k key then Some p else dec_lookup t' id key
+  end.
+Fixpoint osm_lookup (t : list (bytes * option (list member))) (c : bytes) : option (list member) :=
+  match t with
+  | [] => None
+  | (k, ms) :: t' => if bytes_eqb k c then ms else osm_lookup t' c
+  end.
+
+Definition no_crypt : crypt := mkCrypt false (fun _ o => Some o) (fun _ _ => None).
+
+Definition crypt_of_sx (x : sx) : option crypt :=
+  match x with
+  | SL l =>
+    match find_tag "crypt" l with
+    | None => Some no_crypt
+    | Some [opens; SL (_ :: dt); SL (_ :: ot)] =>
+      do opens <- as_bool opens; do dt <- omap dec_entry_of_sx dt; do ot <- omap osm_entry_of_sx ot;
+      Some (mkCrypt opens
+              (fun id o => match dt with
+                           | [] => Some o
+                           | _ => match dec_lookup dt id (sx_print (obj_to_sx o)) with Some p => p | None => Some o end
+                           end)
+              (fun _ c => osm_lookup ot c))
+    | Some _ => None
+    end
+  | _ => None
+  end.
+
+Definition lres_to_sx (r : lres) : sx :=
+  match r with LDoc d => doc_to_sx d | LErr => SL [sx_id "err"] end.
+
 Fixpoint find_idx (x : bytes) (l : list (bytes * sx)) (k : nat) : option nat :=
   match l with
   | [] => None
@@ -77,18 +146,18 @@ Definition orders {A} (limit : nat) (l : list A) : list (list A) :=
   if Nat.leb (length l) limit then perms l else [l; rev l].
 
 Definition run (x : sx) : sx :=
-  match file_of_sx x with
-  | None => sx_id "badcase"
-  | Some (f, pinned) =>
+  match file_of_sx x, crypt_of_sx x with
+  | None, _ | _, None => sx_id "badcase"
+  | Some (f, pinned), Some c =>
     let os := outcomes f in
     let rs := results os in
     let bl := blocks_of os in
     let zl := zeros_of os in
-    let tail := if pinned then load_tail_pinned f else load_tail f in
-    let d0 := doc_to_sx (if pinned then load_seq_pinned f else load_seq f) in
+    let tail := fun rs bl zl => finish c f ((if pinned then load_tail_pinned f else load_tail f) rs bl zl) in
+    let d0 := lres_to_sx (if pinned then finish c f (load_seq_pinned f) else load_full_seq c f) in
     let u0 := [(sx_print d0, d0)] in
-    let bdocs := map (fun bl' => doc_to_sx (tail rs bl' zl)) (orders 6 bl) in
-    let zdocs := map (fun zl' => doc_to_sx (tail rs bl zl')) (orders 4 zl) in
+    let bdocs := map (fun bl' => lres_to_sx (tail rs bl' zl)) (orders 6 bl) in
+    let zdocs := map (fun zl' => lres_to_sx (tail rs bl zl')) (orders 4 zl) in
     let '(bi, u1) := classify u0 bdocs in
     let '(zi, u2) := classify u1 zdocs in
     SL [sx_id "res"; SL (sx_id "b" :: map (fun k => sx_N (N.of_nat k)) bi);
